@@ -136,6 +136,25 @@ func reorgScenarioOpts(c *pbt.C, id string, check func(c *pbt.C, key string, b, 
 			needY++
 		}
 		grow(c, h2, "y", needY, pbt.Scale(12, 25))
+		// the pillar worker of B will hold a contract receive it generated on the branch it abandons, while the adopted branch
+		// ends with another call to the same contract waiting in its inbox
+		inboxRace := bExtends && c.Bool("inboxRace")
+		raceContract := []types.Address{types.PlasmaContract, types.StakeContract, types.PillarContract}[c.Pick("inboxRace.contract", 3)]
+		raceCall := func(hh *sim.Hist, u types.Address) bool {
+			switch raceContract {
+			case types.PlasmaContract:
+				return hh.ActCall(u, types.PlasmaContract, types.QsrTokenStandard, big.NewInt(10*sim.Zexp), definition.ABIPlasma.PackMethodPanic(definition.FuseMethodName, u), "plasma.Fuse (inbox race)")
+			case types.StakeContract:
+				return hh.ActCall(u, types.StakeContract, types.ZnnTokenStandard, big.NewInt(1*sim.Zexp), definition.ABIStake.PackMethodPanic(definition.StakeMethodName, constants.StakeTimeUnitSec), "stake.Stake (inbox race)")
+			default:
+				return hh.ActCall(u, types.PillarContract, types.ZnnTokenStandard, big.NewInt(0), definition.ABIPillars.PackMethodPanic(definition.UndelegateMethodName), "pillar.Undelegate (inbox race)")
+			}
+		}
+		if inboxRace && !h2.Dead {
+			if raceCall(h2, h.Users[1%len(h.Users)]) {
+				h2.Produce(0)
+			}
+		}
 		if h.Dead || h2.Dead {
 			c.Excluded("C09-preflight-abort")
 			return
@@ -153,6 +172,9 @@ func reorgScenarioOpts(c *pbt.C, id string, check func(c *pbt.C, key string, b, 
 		}
 		if bExtends {
 			hb := sim.NewHistOn(c, h.W, b, h)
+			if inboxRace && raceCall(hb, h.Users[0]) {
+				c.Class("worker-of-the-reorganised-node-generated-a-receive-on-the-abandoned-branch")
+			}
 			if hb.Produce(0) && b.Height() == topX+1 && topY > b.Height() {
 				lenX++
 				c.Class("reorganised-node-produced-on-the-abandoned-branch")
